@@ -30,6 +30,48 @@ def map_signal(rep, ctx):
         rep.violation(k, v['what'], replay=path, reproduced=True)
 
 
+def join_all(rep, ctx, seed):
+    """JoinAll (used by handle_cmd(Stop) to wait for the workers' answers): resolves exactly when every input has resolved,
+    outputs in input order, never polls an input again after it completed."""
+    from mirsym import Struct, Ref, LCell, Cell, Panic
+    from models import VecObj, BoxObj, ContextObj, WakerObj
+    from explore import explore
+    POLL = ctx.M('JoinAll', 'poll', 'Future')
+    class Fut:
+        canon_fields = ('i', 'done')
+        def __init__(self, i, w): self.i, self.w, self.done = i, w, False
+        def poll(self, ex):
+            if self.done: raise Panic('JoinAll polled input %d after it completed' % self.i)
+            a = ex.pick('join', ['ready', 'pending'] if self.w['budget'] > 0 else ['ready'])
+            self.w['hist'].append('f%d=%s' % (self.i, a))
+            if a == 'pending': self.w['budget'] -= 1; return Enum('Poll', 'Pending')
+            self.done = True
+            return Enum('Poll', 'Ready', [z3.BitVecVal(10 + self.i, 8)])
+        def model_drop(self, ex): pass
+    def body(ex, acc):
+        n = ex.pick('n', [0, 1, 2, 3]); w = {'budget': 3, 'hist': ['n=%d' % n]}; ex.hist = w['hist']
+        futs = [Fut(i, w) for i in range(n)]
+        ja = Struct('JoinAll', [VecObj([Enum('JoinFuture', 'Future', [BoxObj(f)]) for f in futs])])
+        cx = ContextObj(WakerObj(1))
+        for k in range(6):
+            try: r = ex.run(POLL, [Ref(LCell(Cell(ja))), Ref(LCell(Cell(cx)))])
+            except Panic as p:
+                acc.violated(ex, 'C06/join_all_never_polls_a_completed_input', True, hist=w['hist'], what=str(p)); return
+            alldone = all(f.done for f in futs)
+            acc.violated(ex, 'C06/join_all_resolves_exactly_when_every_input_has_resolved', (r.variant == 'Ready') != alldone, hist=w['hist'],
+                         what='JoinAll returned %s with inputs done=%s' % (r.variant, [f.done for f in futs]))
+            if r.variant == 'Ready':
+                vals = [z3.simplify(c_.v).as_long() for c_ in r.f[0].v.items]
+                acc.violated(ex, 'C06/join_all_keeps_input_order', vals != [10 + i for i in range(n)], hist=w['hist'], what='outputs %s' % vals)
+                acc.wit['c06_join_all_resolved'] += 1; return
+            w['hist'].append('poll')
+    acc = explore(ctx.mk, body, seed=seed, seed_paths=64)
+    acc.to_report(rep)
+    for k, v in acc.viol.items():
+        path = core.write_replay('C06', k, {'obligation': k, 'history': v['hist'], 'what': v['what']})
+        rep.violation(k + ': ' + ' '.join(v['hist']), v['what'], replay=path, reproduced=True)
+
+
 def run(rep, tier, seed):
     rep.need_witness('c06_idle_stop', 'c06_forced_stop', 'c06_graceful_true', 'c06_graceful_timeout', 'c06_graceful_waiting')
     q = tier == 'quick'
@@ -43,7 +85,9 @@ def run(rep, tier, seed):
                                   actions=('connect', 'finish', 'pause', 'resume', 'stop'), checks=(chk_stop,)))]
     rep.need_witness('loop_returned_on_stop')
     ctx = srvchecks.run_accept_property(rep, 'C06', aruns, tier, seed, also=('accept_loop',))
-    if ctx is not None: map_signal(rep, ctx)
+    if ctx is not None:
+        map_signal(rep, ctx)
+        rep.need_witness('c06_join_all_resolved'); join_all(rep, ctx, seed)
 
 
 def chk_stop(w):
